@@ -57,7 +57,8 @@ def sim_concrete(block, K, modelvals, kind='sim', reg_init='sym', mem_init='sym'
                  regmap_key=None, memmap_key=None, track='all'):
     """run the real simulator on plain ints. returns (trace dict name->list, mems dict name->dict, sim)"""
     regmap_key = regmap_key or (lambda r: r)
-    memmap_key = memmap_key or (lambda m: m)
+    from .simdrv import default_memkey
+    memmap_key = memmap_key or default_memkey(block)
     rmap, mmap = {}, {}
     if reg_init == 'sym':
         for r in block.wirevector_subset(pyrtl.Register):
